@@ -286,6 +286,91 @@ def help_conflict_first_wins_full_statement : Prop :=
   ∀ (pre mid : List Spec.Op) (n d1 d2 : Bytes) (t : MType), (∀ o ∈ pre, o.1 ≠ n) →
     effectiveHelp d2 (validate (Spec.famsAfter [] (pre ++ (n, d1, t) :: mid)) n d2 t).2.2 = d1
 
+/-- Exemplars never touch the series: whatever exemplars a data point carries (accepted, refused, none), the metric that
+is sent — presence, name, help, type, labels, value/buckets — is the same. (A refused exemplar costs the exemplars, not
+the series; the seeded change C18-2 broke exactly this on the real code.) -/
+theorem emitPoint_value_indep_exemplars (esc : Bytes → Bytes) (legacy : Bool) (name help : Bytes) (typ : MType)
+    (extra : List KV) (p : Point) (exs : List Exemplar) :
+    (emitPoint esc legacy name help typ extra { p with exemplars := exs }).map
+        (fun e => (e.name, e.help, e.typ, e.labels, e.payload)) =
+      (emitPoint esc legacy name help typ extra p).map (fun e => (e.name, e.help, e.typ, e.labels, e.payload)) := by
+  unfold emitPoint
+  simp only
+  split
+  · rfl
+  · cases p.payload <;> simp [Option.map_map, Function.comp_def]
+
+/-- The accept/reject rule: exemplars are attached iff there is at least one and *every* one is acceptable to
+client_golang (label names legal, values valid UTF-8, names+values ≤ 128 runes); then all of them are passed on in
+order with labels = escaped filtered attributes overwritten by trace_id/span_id; otherwise none is. -/
+theorem exemplars_accept_rule (esc : Bytes → Bytes) (legacy : Bool) (exs : List Exemplar) :
+    promExemplars esc legacy exs =
+      if exs ≠ [] ∧ ∀ e ∈ exs, exemplarOK legacy (exemplarLabels esc e) = true
+      then some (exs.map fun e => (e.q, exemplarLabels esc e)) else none := by
+  unfold promExemplars
+  cases exs with
+  | nil => simp
+  | cons e rest =>
+    have hiff : (((e :: rest).map fun e => (e.q, exemplarLabels esc e)).all fun l => exemplarOK legacy l.2) = true ↔
+        ∀ x ∈ e :: rest, exemplarOK legacy (exemplarLabels esc x) = true := by
+      simp [List.all_eq_true]
+    simp only [List.isEmpty_cons, Bool.false_eq_true, if_false]
+    by_cases h : ∀ x ∈ e :: rest, exemplarOK legacy (exemplarLabels esc x) = true
+    · rw [if_pos (hiff.mpr h), if_pos ⟨by simp, h⟩]
+    · rw [if_neg (fun hh => h (hiff.mp hh)), if_neg (fun hh => h hh.2)]
+
+/-- Exposed exemplars of sums and gauges are the specified ones (this is the oracle `Spec.exemplarsFaithful` evaluated
+on the real scrape): a monotonic counter shows exactly the SDK's last exemplar (value and labels) when all are
+accepted, nothing when one is refused; non-monotonic sums and gauges show none. -/
+theorem exemplars_faithful_num (esc : Bytes → Bytes) (legacy : Bool) (typ : MType) (q : Int) (exs : List Exemplar) :
+    Spec.exemplarsFaithful esc legacy typ (.num q) exs (exemplarsOut esc legacy typ (.num q) exs) = true := by
+  unfold Spec.exemplarsFaithful exemplarsOut
+  simp only
+  by_cases ht : (typ == MType.counter) = true
+  · simp only [ht, if_true, Bool.true_and]
+    rw [exemplars_accept_rule]
+    by_cases hacc : exs ≠ [] ∧ ∀ e ∈ exs, exemplarOK legacy (exemplarLabels esc e) = true
+    · have h1 : (!exs.isEmpty && exs.all fun e => exemplarOK legacy (exemplarLabels esc e)) = true := by
+        obtain ⟨hne, hall⟩ := hacc
+        cases exs with
+        | nil => exact absurd rfl hne
+        | cons _ _ => simpa [List.all_eq_true] using hall
+      rw [if_pos hacc]
+      simp only [h1, if_true, List.getLast?_map]
+      cases hl : exs.getLast? with
+      | none => simp [List.getLast?_eq_none_iff] at hl; exact absurd hl hacc.1
+      | some e => simp
+    · have h1 : (!exs.isEmpty && exs.all fun e => exemplarOK legacy (exemplarLabels esc e)) = false := by
+        rw [Bool.eq_false_iff]
+        intro hh
+        apply hacc
+        simp only [Bool.and_eq_true, Bool.not_eq_true', List.all_eq_true] at hh
+        refine ⟨?_, hh.2⟩
+        intro hnil; rw [hnil] at hh; simp at hh
+      rw [if_neg hacc]
+      simp [h1]
+  · simp [ht]
+
+/-- Native (exponential) histograms carry no exemplars. -/
+theorem exemplars_faithful_expo (esc : Bytes → Bytes) (legacy : Bool) (typ : MType) (sumq : Int) (dp : ExpoDP)
+    (exs : List Exemplar) :
+    Spec.exemplarsFaithful esc legacy typ (.expo sumq dp) exs (exemplarsOut esc legacy typ (.expo sumq dp) exs) = true := by
+  simp [Spec.exemplarsFaithful, exemplarsOut]
+
+/-- Explicit-bucket histograms, refusal: one unacceptable exemplar and the series shows no exemplar at all. -/
+theorem exemplars_hist_rejected_none (esc : Bytes → Bytes) (legacy : Bool) (typ : MType) (count : Nat) (sumq : Int)
+    (bounds : List Int) (counts : List Nat) (exs : List Exemplar) (h : promExemplars esc legacy exs = none) :
+    exemplarsOut esc legacy typ (.hist count sumq bounds counts) exs = [] := by
+  simp [exemplarsOut, h]
+
+/-- The statement not proved (type-checked): placement of accepted exemplars on histogram buckets satisfies the oracle.
+Covered by the oracle on every scrape and by the differential check only. -/
+def exemplars_faithful_hist_statement : Prop :=
+  ∀ (esc : Bytes → Bytes) (legacy : Bool) (typ : MType) (count : Nat) (sumq : Int) (bounds : List Int) (counts : List Nat)
+    (exs : List Exemplar),
+    Spec.exemplarsFaithful esc legacy typ (.hist count sumq bounds counts) exs
+      (exemplarsOut esc legacy typ (.hist count sumq bounds counts) exs) = true
+
 /-- Collect never panics in getName, whatever the instruments are. -/
 theorem collect_never_panics (esc : Bytes → Bytes) (sc : Scenario) : collectPanics esc sc = false := by
   unfold collectPanics
@@ -303,6 +388,11 @@ example : Spec.histFaithful [0, 20] [1, 2, 3] 6 6 (histBuckets [0, 20] [1, 2, 3]
     histBuckets [0, 20] [1, 2, 3] = [(0, 1), (20, 3)] := by decide
 example : (expoToNative ⟨3, 1, -2, [4, 0, 5], 7, [6], 16⟩).map (·.pos) = some [(-1, 4), (0, 0), (1, 5)] := by decide
 example : (validate (Spec.famsAfter [] [(b "a", b "d1", .counter), (b "x", [], .gauge)]) (b "a") (b "d2") .gauge).2.1 = true := by
+  decide
+
+-- exemplars: 63 runes of ids + url_full (8) + 57 = 128 accepted, + 58 = 129 refused; value and labels unchanged
+example : (promExemplars escUnderscore false [⟨28, [(b "url.full", List.replicate 57 97)], List.replicate 32 48, List.replicate 16 48⟩]).isSome = true ∧
+    promExemplars escUnderscore false [⟨28, [(b "url.full", List.replicate 58 97)], List.replicate 32 48, List.replicate 16 48⟩] = none := by
   decide
 
 end Otel.C18
